@@ -2,6 +2,7 @@ from __future__ import annotations
 
 import ast
 import enum
+import re
 import sys
 from collections.abc import Callable
 from typing import TYPE_CHECKING, Any, ClassVar, Literal, NoReturn, TypeVar, cast
@@ -577,7 +578,31 @@ class Parser:
         path_tok = self._strip_path_prefix(a)
         if path_tok:
             self._path_token = path_tok
+        self._decode_fstring_parts(b, raw="r" in a.string.rstrip("'\"").lower())
         return ast.JoinedStr(values=b, **locs)
+
+    def _decode_fstring_parts(self, values: list[Any], raw: bool) -> None:
+        """literal parts carry the source text: undouble braces and decode escapes like CPython does"""
+        for part in values:
+            if isinstance(part, ast.Constant) and isinstance(part.value, str):
+                part.value = self._decode_fstring_text(part.value, raw)
+            elif isinstance(part, ast.FormattedValue) and isinstance(part.format_spec, ast.JoinedStr):
+                self._decode_fstring_parts(part.format_spec.values, raw)
+        # a part that is only a line continuation decodes to nothing
+        values[:] = [p for p in values if not (isinstance(p, ast.Constant) and p.value == "")]
+
+    @staticmethod
+    def _decode_fstring_text(text: str, raw: bool) -> str:
+        text = text.replace("{{", "{").replace("}}", "}")
+        if raw or "\\" not in text:
+            return text
+        # evaluate the text as the body of a plain (triple double-quoted) string literal
+        body = "".join(
+            '\\"' if piece == '"' else piece for piece in re.findall(r'\\[\s\S]|"|[^\\"]+|\\', text)
+        )
+        if (len(text) - len(text.rstrip("\\"))) % 2:
+            body += "\\"  # a lone trailing backslash (before a replacement field) stays a backslash
+        return cast(str, ast.literal_eval('"""' + body + '"""'))
 
     @staticmethod
     def _is_bytes_literal(part: TokenInfo | ast.expr) -> bool:
